@@ -753,8 +753,64 @@ def run(ctx, anchors=None):
              "a path of the OP_IF case returns %s without having decided sigversion == %s%s (decided: %s): the rule is applied to scripts of another version - legacy scripts with a non-minimal IF argument fail although Bitcoin takes the branch"
              % ((bad10[0], bad10[1], " and the MINIMALIF flag" if bad10[1] == "WITNESS_V0" else "", bad10[2]) if bad10 else ("", "", "", "")))
 
+    # ---- R01.11 which refusal an operation meets first is part of what a step reports (the error of the failing operation): in the
+    # head of the operation step the refusals come in Bitcoin's order - element size, operation count, disabled opcode, legacy
+    # OP_CODESEPARATOR - each test dominating the next. (A 202nd operation that is also disabled fails with OP_COUNT.)
+    ctx.rule("R01.11", "the head of the operation step refuses in the order PUSH_SIZE, OP_COUNT, DISABLED_OPCODE, OP_CODESEPARATOR")
+    order = ["SCRIPT_ERR_PUSH_SIZE", "SCRIPT_ERR_OP_COUNT", "SCRIPT_ERR_DISABLED_OPCODE", "SCRIPT_ERR_OP_CODESEPARATOR"]
+    swtop = sw10[0] if sw10 else None
+    firsts = {}
+    for n in opstep.nodes():
+        if n["k"] == "ref" and n.get("dk") == "enumc" and n["n"] in order and n["n"] not in firsts and not (swtop is not None and S.contains(swtop, n)):
+            ifs = [a for a in opstep.ancestors(n) if a.get("k") == "if"]
+            if ifs:
+                firsts[n["n"]] = ifs[-1]      # the outermost `if` of the refusal
+    if len(firsts) < 3:
+        raise AnalysisBroken("R01.11: fewer than three of the head refusals (%s) found before the opcode switch" % ", ".join(order))
+    seq = [e for e in order if e in firsts]
+    bad11 = None
+    for a_, b_ in zip(seq, seq[1:]):
+        ctx.site()
+        if not cfg9.dominates(firsts[a_]["cond"], firsts[b_]["cond"]) and not any(cfg9.dominates(x, y) for x in walk(firsts[a_]["cond"]) for y in [firsts[b_]["cond"]] if cfg9.position(x) is not None):
+            bad11 = (a_, b_, opstep.loc(firsts[b_]))
+    ctx.inst(bad11 is None, "R01.11", "refusal-order", opstep.loc(firsts[seq[0]]), "the head refusals are tested in the order %s" % " < ".join(x.replace("SCRIPT_ERR_", "") for x in seq),
+             "the %s test no longer precedes the %s test (%s): an operation that meets both is reported with the other error than Bitcoin's (the 202nd operation of a script, when it is a disabled opcode, must fail with OP_COUNT)"
+             % ((bad11[0].replace("SCRIPT_ERR_", ""), bad11[1].replace("SCRIPT_ERR_", ""), bad11[2]) if bad11 else ("", "", "")))
+
+    # ---- R01.12 MINIMALDATA covers every executed push: the opcode predicates guarding the MINIMALDATA refusal of the push path admit
+    # exactly the push opcodes 0 .. OP_PUSHDATA4 (a one-byte direct push of 1..16 or 0x81 is the non-minimal form most often met).
+    ctx.rule("R01.12", "the MINIMALDATA refusal of the push path is reached for every push opcode")
+    md = [n for n in opstep.nodes() if n["k"] == "ref" and n.get("dk") == "enumc" and n["n"] == "SCRIPT_ERR_MINIMALDATA" and not (swtop is not None and S.contains(swtop, n))]
+    if not md:
+        raise AnalysisBroken("R01.12: no SCRIPT_ERR_MINIMALDATA refusal before the opcode switch (the push path)")
+    en12 = [e for e in fb.enums if e["name"].endswith("opcodetype")][0]
+    pd4 = [c_["v"] for c_ in en12["consts"] if c_["n"] == "OP_PUSHDATA4"][0]
+    want12 = {c_["n"] for c_ in en12["consts"] if 0 <= c_["v"] <= pd4}
+    adm = None
+    npred = 0
+    for (c_, t_) in cfg9.guards_of(md[0]):
+        cn = opstep.node_by_id(c_)
+        if cn is None or not any(is_opc9(x) for x in walk(cn)):
+            continue
+        ps = common.opcode_predicate_set(prog, opstep, cn, is_opc9)
+        if ps is None:
+            continue
+        npred += 1
+        ps = {x.split("::")[-1] for x in ps}
+        if not t_:
+            ps = {c__["n"] for c__ in en12["consts"]} - ps
+        adm = ps if adm is None else adm & ps
+    ctx.site(npred)
+    if adm is None:
+        raise AnalysisBroken("R01.12: the push path's opcode range test was not recognised")
+    ctx.inst(want12 <= adm, "R01.12", "minimaldata-for-every-push-opcode", opstep.loc(md[0]), "the refusal is guarded by opcode predicates admitting every named push opcode (%s)" % ", ".join(sorted(want12)),
+             "the MINIMALDATA refusal of the push path is not reached for %s: with MINIMALDATA set such a push is executed although a shorter encoding exists (e.g. the direct push 0x01 0x05 for OP_5)"
+             % ", ".join(sorted(want12 - adm)))
+
 
 MUTANTS = [
+    dict(name="op-count-before-the-element-size", file="script/interpreter.cpp", regex=True, find=r"(            if \(vchPushValue\.size\(\) > MAX_SCRIPT_ELEMENT_SIZE\)\n                return set_error\(serror, SCRIPT_ERR_PUSH_SIZE\);\n)\n(            if \(sigversion == SigVersion::BASE \|\| sigversion == SigVersion::WITNESS_V0\) \{\n                // Note how OP_RESERVED.*?\n            \}\n)", replace=r"\2\n\1", expect=["R01.11:refusal-order"]),
+    dict(name="minimaldata-only-for-pushdata-forms", file="script/interpreter.cpp", find="                if (fRequireMinimal && !CheckMinimalPush(vchPushValue, opcode)) {", replace="                if (fRequireMinimal && opcode >= OP_PUSHDATA1 && !CheckMinimalPush(vchPushValue, opcode)) {", expect=["R01.12:minimaldata-for-every-push-opcode"]),
     dict(name="minimalif-for-every-script-version", file="script/interpreter.cpp", find="                        if (sigversion == SigVersion::WITNESS_V0 && (flags & SCRIPT_VERIFY_MINIMALIF)) {", replace="                        if (sigversion != SigVersion::TAPSCRIPT && (flags & SCRIPT_VERIFY_MINIMALIF)) {", expect=["R01.10:minimal-if-version-scope"]),
     dict(name="codeseparator-acts-in-a-skipped-branch", file="script/interpreter.cpp", find="            if (fExec && 0 <= opcode && opcode <= OP_PUSHDATA4) {", replace="            if (opcode == OP_CODESEPARATOR) execdata.m_codeseparator_pos = opcode_pos;\n            if (fExec && 0 <= opcode && opcode <= OP_PUSHDATA4) {", expect=["R01.9:skipped-operation-writes:execdata"]),
     dict(name="push-lands-in-a-skipped-branch", file="script/interpreter.cpp", find="            if (fExec && 0 <= opcode && opcode <= OP_PUSHDATA4) {", replace="            if (0 <= opcode && opcode <= OP_PUSHDATA4) {", expect=["R01.9:skipped-operation-writes:stack"]),
